@@ -1,14 +1,15 @@
 #!/bin/bash
 # confirm_seed.sh <seed-dir (with patch.diff, demo.rs)> <scratch worktree> : re-confirms a seeded change independently
+# DEMO_FLAGS (env): extra cargo flags for the demonstration test only (feature configuration)
 # prints: DEMO_WITH=<fail|pass> DEMO_WITHOUT=<fail|pass> SUITE_FAILED=<n> SUITE_PASSED=<n>
 D=$1; WT=$2
 export CARGO_NET_OFFLINE=true CARGO_TARGET_DIR=$WT/target
 cd $WT || exit 2
 git checkout -q -- . ; rm -f tests/seed_demo.rs
 cp $D/demo.rs tests/seed_demo.rs
-cargo test --offline --test seed_demo >/tmp/confirm_$$.log 2>&1 && W0=pass || W0=fail
+cargo test --offline $DEMO_FLAGS --test seed_demo >/tmp/confirm_$$.log 2>&1 && W0=pass || W0=fail
 git apply $D/patch.diff || { echo "PATCH DOES NOT APPLY"; exit 3; }
-cargo test --offline --test seed_demo >/tmp/confirm_$$.log 2>&1 && W1=pass || W1=fail
+cargo test --offline $DEMO_FLAGS --test seed_demo >/tmp/confirm_$$.log 2>&1 && W1=pass || W1=fail
 rm -f tests/seed_demo.rs
 cargo test --workspace --no-fail-fast --offline >/tmp/confirm_$$.log 2>&1
 P=$(grep -E "^test .* ok$" /tmp/confirm_$$.log | wc -l); F=$(grep -E "^test .* FAILED$" /tmp/confirm_$$.log | wc -l)
